@@ -232,9 +232,9 @@ fn build_block(c: &Case, ks: &Keys, r: &mut Rng, salt: u64) -> Block {
         let signer = t.from.first().map(|k| *k as usize).unwrap_or(0);
         tx.sign(&ks.sk[signer]);
         b.add_transaction(tx);
-        // every other block is generated once more while it is still growing (a block object that was generated before its
+        // every fourth block (one that stays in memory, see run_case) is generated once more while it is still growing (a block object that was generated before its
         // last transactions were added): whatever `generate` caches at that point is stale for the final transaction set
-        if salt % 2 == 1 && i == 0 {
+        if salt % 4 == 2 && i == 0 {
             let _ = b.generate();
             // the commitment is only computed when it is unset: clear it so that the final generate recomputes it
             b.merkle_root = [0; 32];
@@ -641,10 +641,11 @@ pub fn run(seed: u64, tier: &str, outdir: &str) {
         b.transactions[0].txs_replacements = 2;
         b.transactions[0].sign(&ks.sk[0]);
         b.merkle_root = [0; 32];
-        b.generate().expect("generate");
+        // a tree that refuses such a transaction outright (Block::generate returns Err) has nothing to project
+        let refused = b.generate().is_err();
+        out.count(if refused { "probe=full-tx-with-replacements-2:refused-by-generate" } else { "probe=full-tx-with-replacements-2" });
         let lite = b.generate_lite_block(vec![ks.pk[1]]);
-        out.count("probe=full-tx-with-replacements-2");
-        if lite.generate_merkle_root(false, false) != b.merkle_root {
+        if !refused && lite.generate_merkle_root(false, false) != b.merkle_root {
             out.monitor_fail(
                 "C18/merkle/omitted-tx-has-own-replacement-count",
                 "a non-SPV transaction with txs_replacements = 2 is two leaves of the full tree but its placeholder is one leaf",
